@@ -1,276 +1,307 @@
 import AcqVerif.Runtime.Model
 /-!
-# M1 — the client thread (`acquire_start`, `acquire_stop`, `acquire_abort`, `acquire_map_read`,
-`acquire_unmap_read`, `acquire_get_state`) and the whole-system step
+# M1 — the client thread (`acquire_configure`, `acquire_start`, `acquire_stop`, `acquire_abort`,
+`acquire_map_read`, `acquire_unmap_read`, `acquire_get_state`) and the whole-system step
 -/
 namespace AcqVerif.Runtime
 open AcqVerif.Channel
 
+/-- client (API) operations of the data path -/
+inductive COp where
+  | start | stop | abort
+  | map (s : Nat) | unmap (s : Nat) (nframes : Option Nat)
+  | state | monwait (s : Nat) | sleep (n : Nat)
+  | configure (n0 n1 : Nat)     -- acquire_configure with the same devices and shapes; new frame counts
+deriving DecidableEq, Repr, Inhabited
+
+/-- program counter of the client thread (parking points, and transient decision points) -/
+inductive CPc where
+  -- acquire_start, stream s
+  | stoStart (s : Nat) | createSnk (s : Nat) | createFlt (s : Nat) | camStart (s : Nat) | createSrc (s : Nat)
+  | errCamStop (s : Nat)                    -- acquire_start's error path: camera_stop of stream s
+  -- channel_accept_writes(sink.in of s, v); `k` says what follows: 0 video_sink_start, 1 acquire_abort, 2 acquire_stop
+  | accLock (s : Nat) (v : Bool) (k : Nat) | accNotify (s : Nat) (k : Nat)
+  -- acquire_configure, stream s
+  | cfgCamSet (s : Nat) | cfgStoSet (s : Nat) | cfgGetShape (s : Nat)
+  -- acquire_stop, stream s; reader r: 2 = filter's reader on filter.in, 0 = sink's, 1 = monitor's on sink.in
+  | joinSrc (s : Nat) | joinFlt (s : Nat) | joinSnk (s : Nat)
+  | flushRmapLock (s : Nat) (r : Nat) | flushRmapNotify (s : Nat) (r : Nat)
+  | flushUnmapLock (s : Nat) (r : Nat) (pre : Bool) | flushUnmapNotify (s : Nat) (r : Nat) (pre : Bool)
+  -- acquire_map_read / acquire_unmap_read
+  | mapLock (s : Nat) | mapNotify (s : Nat) | unmapLock (s : Nat) (k : Nat) | unmapNotify (s : Nat)
+  | sleeping (n : Nat)
+  | done
+  -- transient
+  | next                                     -- fetch the next API call of the program
+  | startAt (s : Nat) | srcCheck (s : Nat) | startErr (s : Nat)
+  | abortAt (s : Nat) | stopAt (s : Nat) | flushAt (s : Nat) (r : Nat) | flushAfterRead (s : Nat) (r : Nat) | flushed (s : Nat) (r : Nat)
+  | cfgAt (s : Nat)
+  | afterMap (s : Nat) | afterUnmap (s : Nat)
+deriving DecidableEq, Repr, Inhabited
+
+structure Client where
+  pc : CPc := .next
+  prog : List COp := []
+  aborting : Bool := false     -- the current acquire_stop was entered from acquire_abort
+  startFailed : Bool := false  -- … or from acquire_start's error path
+  monLen : List Nat := [0, 0]  -- length of the region the client has mapped, per stream (ghost)
+  flushLen : Nat := 0
+  inMonwait : Bool := false
+  pendingSay : String := ""    -- line the harness prints when the current call returns
+  cfgN : List Nat := [0, 0]    -- frame counts of the configure call in progress
+deriving Repr, Inhabited
+
+structure RT where
+  streams : List Stream := [{}, {}]
+  client : Client := {}
+  nthreads : Nat := 1          -- tids handed out so far (client = 0)
+  state : DevState := .armed   -- `runtime.state`
+deriving Repr, Inhabited
+
+def getS (rt : RT) (s : Nat) : Stream := rt.streams.getD s {}
+def setS (rt : RT) (s : Nat) (st : Stream) : RT := { rt with streams := rt.streams.set s st }
+def modS (rt : RT) (s : Nat) (f : Stream → Stream) : RT := setS rt s (f (getS rt s))
+def setPc (rt : RT) (pc : CPc) : RT := { rt with client := { rt.client with pc := pc } }
+
 /-- `acquire_get_state` (no synchronisation call inside) -/
+def alive (rt : RT) : Bool := rt.streams.any fun st => st.valid && (st.srcRunning || st.fltRunning || st.snkRunning)
 def getState (rt : RT) : RT :=
-  if rt.state ≠ .running then rt else
-  let alive := rt.streams.any fun st => st.valid && (st.srcRunning || st.fltRunning || st.snkRunning)
-  -- (the C stops at the first valid stream whose workers are alive; any stream gives the same answer)
-  { rt with state := if alive then .running else .armed }
+  { rt with state := if rt.state = .running then (if alive rt then .running else .armed) else rt.state }
 
 def nextValid (rt : RT) (s : Nat) : Option Nat :=
   ((List.range rt.streams.length).filter fun i => decide (i ≥ s) && (getS rt i).valid).head?
-
-/-- readers flushed by `acquire_stop` for stream `s`, in order: the filter's reader on `filter.in` (code 2),
-the sink's reader (0) and, if registered, the monitor's reader (1) on `sink.in` -/
-def flushOrder (st : Stream) : List Nat := if st.monReg then [2, 0, 1] else [2, 0]
+def nv (rt : RT) (s : Nat) : Nat := (nextValid rt s).getD 0
 
 def readerChan (st : Stream) (r : Nat) : Sys := if r = 2 then st.filtCh else st.sinkCh
 def readerIdx (r : Nat) : Nat := if r = 2 then 0 else r
 def setReaderChan (st : Stream) (r : Nat) (c : Sys) : Stream :=
   if r = 2 then { st with filtCh := c } else { st with sinkCh := c }
+def flushRead (rt : RT) (s r : Nat) : Sys × Out := chanOp (readerChan (getS rt s) r) (.rmap (readerIdx r))
+/-- client steps that start by taking the lock of stream `s`'s `sink.in` need it free -/
+def lockOk (rt : RT) (s r : Nat) : Bool := r = 2 || sinkLockFree (getS rt s)
+def monMapped (rt : RT) (s : Nat) : Bool := (getS rt s).monReg && ((getS rt s).sinkCh.rds.getD 1 {}).mapped
+def notifyIf (rt : RT) (s r : Nat) : RT := if r = 2 then rt else modS rt s notifySink
 
-/-- begin the next API call of the program (the harness code between calls has no yield point);
-`fuel` bounds the number of calls that complete without reaching a parking point -/
-def clientNextF : Nat → RT → RT
-  | 0, rt => rt
-  | fuel + 1, rt =>
-  let clientNext := clientNextF fuel
-  match rt.client.prog with
-  | [] => { rt with client := { rt.client with pc := .done } }
-  | op :: rest =>
-    let rt := { rt with client := { rt.client with prog := rest } }
-    match op with
-    | .start =>
-      match nextValid rt 0 with
-      | some s => { rt with client := { rt.client with pc := .stoStart s } }
-      | none => clientNext (say rt "API start -> err")
-    | .stop =>
-      match nextValid rt 0 with
-      | some s => { rt with client := { rt.client with pc := .joinSrc s, aborting := false } }
-      | none => clientNext (say { rt with state := .armed } "API stop -> ok")
-    | .abort =>
-      match nextValid rt 0 with
-      | some s =>
-        -- source.is_stopping = 1; channel_accept_writes(sink.in, 0) parks at its lock
-        let st := getS rt s
-        let rt := setS rt s { st with srcStopping := true }
-        { rt with client := { rt.client with pc := .accLock s false 1, aborting := true } }
-      | none => clientNext (say { rt with state := .armed } "API abort -> ok")
-    | .map s =>
-      let st := getS rt s
-      if (st.monReg && (st.sinkCh.rds.getD 1 {}).mapped) then clientNext (say rt s!"API map {s} -> err")
-      else { rt with client := { rt.client with pc := .mapLock s } }
-    | .unmap s nf =>
-      let st := getS rt s
-      let len := rt.client.monLen.getD s 0
-      let k := match nf with | none => len | some n => min len (n * st.F)
-      if st.monReg && (st.sinkCh.rds.getD 1 {}).mapped then
-        { rt with client := { rt.client with pc := .unmapLock s k } }
-      else clientNext (say { rt with client := { rt.client with monLen := rt.client.monLen.set s 0 } } s!"API unmap {s} {k} -> ok")
-    | .state =>
-      let rt := getState rt
-      clientNext (say rt s!"API state -> {rt.state.name}")
-    | .monwait s =>
-      let rt := getState rt
-      if rt.state = .running then
-        -- map; unmap all; sleep; again
-        { rt with client := { rt.client with pc := .mapLock s, inMonwait := true, prog := .monwait s :: rest } }
-      else clientNext (say { rt with client := { rt.client with inMonwait := false } } s!"API monwait {s} -> {rt.state.name}")
-    | .sleep n => if n = 0 then clientNext rt else { rt with client := { rt.client with pc := .sleeping n } }
-    | .configure n0 n1 =>
-      -- (valid_video_streams is recomputed; the harness configures the same streams again)
-      match nextValid rt 0 with
-      | some s => { rt with client := { rt.client with pc := .cfgCamSet s, cfgN := [n0, n1] } }
-      | none => clientNext rt
+def mapRead (rt : RT) (s : Nat) : Sys × Out :=
+  if (getS rt s).monReg then chanOp (getS rt s).sinkCh (.rmap 1) else chanOp (getS rt s).sinkCh .join
+def mapIdx (rt : RT) (s : Nat) : Nat :=
+  if (getS rt s).monReg then (getS rt s).sinkCh.idx.getD 1 0 else (getS rt s).sinkCh.total - (getS rt s).sinkCh.c.head
+def mapLine (rt : RT) (s : Nat) : String :=
+  let o := (mapRead rt s).2
+  let ids := (framesIn (getS rt s).sinkFrames (mapIdx rt s) (outLen o)).map (·.id)
+  if outStatus o = 0 then s!"API map {s} -> ok bytes={outLen o} frames={",".intercalate (ids.map toString)}" else s!"API map {s} -> err"
+def mapMoved (rt : RT) (s : Nat) : Bool := (getS rt s).monReg && moved (getS rt s).sinkCh (mapRead rt s).1
+def unmapCount (rt : RT) (s : Nat) (nf : Option Nat) : Nat :=
+  match nf with
+  | none => rt.client.monLen.getD s 0
+  | some n => min (rt.client.monLen.getD s 0) (n * (getS rt s).F)
+def validMask (rt : RT) : Nat := (if (getS rt 0).valid then 1 else 0) + (if (getS rt 1).valid then 2 else 0)
 
-def clientNext (rt : RT) : RT := clientNextF (rt.client.prog.length + 1) rt
+def headOp (rt : RT) : Option COp := rt.client.prog.head?
+def popOp (rt : RT) : RT := { rt with client := { rt.client with prog := rt.client.prog.tail } }
+def atPc (rt : RT) (pc : CPc) : Bool := rt.client.pc = pc
 
-/-- `acquire_start`'s error path from stream `s` on: signal the workers of every valid stream, stop its camera
-(a parking point only if the camera is Running), then `acquire_stop` -/
-def startErrorFrom (rt : RT) (s : Nat) : RT :=
-  match nextValid rt s with
-  | some i =>
-    let st := getS rt i
-    let st := { st with srcStopping := true, fltStopping := true }
-    let rt := setS rt i st
-    if st.cam.state = .running then { rt with client := { rt.client with pc := .errCamStop i, startFailed := true } }
-    else
-      -- (no driver call) continue with the next stream; fuel: at most two streams
-      match nextValid rt (i + 1) with
-      | some j =>
-        let stj := getS rt j
-        let stj := { stj with srcStopping := true, fltStopping := true }
-        let rt := setS rt j stj
-        if stj.cam.state = .running then { rt with client := { rt.client with pc := .errCamStop j, startFailed := true } }
-        else startErrorJoin rt
-      | none => startErrorJoin rt
-  | none => startErrorJoin rt
-where
-  startErrorJoin (rt : RT) : RT :=
-    match nextValid rt 0 with
-    | some s0 => { rt with client := { rt.client with pc := .joinSrc s0, startFailed := true, aborting := false } }
-    | none => rt
+/-- the API call currently at the head of the program is … -/
+def isOp (rt : RT) (op : COp) : Bool := rt.client.pc = .next && headOp rt = some op
 
-def startError (rt : RT) : RT := startErrorFrom rt 0
+def isStartAt (pc : CPc) : Option Nat := match pc with | .startAt s => some s | _ => none
 
-/-- what `acquire_stop` does for stream `s` after reader `r` has been flushed -/
-def afterFlush (rt : RT) (s : Nat) (r : Nat) : RT :=
-  let st := getS rt s
-  match (flushOrder st).dropWhile (· ≠ r) with
-  | _ :: r' :: _ =>
-    -- next reader; the monitor's mapped region (if any) is released first
-    if r' = 1 && ((st.sinkCh.rds.getD 1 {}).mapped) then
-      { rt with client := { rt.client with pc := .flushUnmapLock s r' true } }
-    else { rt with client := { rt.client with pc := .flushRmapLock s r' } }
-  | _ =>
-    -- next stream, or the end of acquire_stop
-    match nextValid rt (s + 1) with
-    | some s' => { rt with client := { rt.client with pc := .joinSrc s' } }
-    | none =>
-      if rt.client.startFailed then
-        clientNext (say { rt with state := .awaiting, client := { rt.client with pc := .idle, startFailed := false } } "API start -> err")
-      else
-      let rt := { rt with state := .armed }
-      let what := if rt.client.aborting then "abort" else "stop"
-      clientNext (say { rt with client := { rt.client with pc := .idle, aborting := false } } s!"API {what} -> ok")
+/-- all actions of the client; `say` lines are what the harness prints when a call returns -/
+def clientActs : List (Act RT) :=
+  -- the program counter carries its arguments; actions are given as functions of them and instantiated below
+  let forS (f : Nat → List (Act RT)) : List (Act RT) := f 0 ++ f 1 ++ f 2
+  [ -- ---- fetch the next call ----
+    { name := "cl.end", guard := fun rt => rt.client.pc = .next && rt.client.prog.isEmpty, upd := fun rt => setPc rt .done },
+    { name := "cl.start", guard := fun rt => isOp rt .start, upd := fun rt => setPc (popOp rt) (.startAt 0) },
+    { name := "cl.stop", guard := fun rt => isOp rt .stop,
+      upd := fun rt => { (popOp rt) with client := { (popOp rt).client with pc := .stopAt 0, aborting := false } } },
+    { name := "cl.abort", guard := fun rt => isOp rt .abort,
+      upd := fun rt => { (popOp rt) with client := { (popOp rt).client with pc := .abortAt 0, aborting := true } } },
+    { name := "cl.state", guard := fun rt => isOp rt .state, upd := fun rt => popOp (getState rt),
+      out := fun rt => [s!"API state -> {(getState rt).state.name}"] }
+  ] ++
+  forS (fun s => [
+    -- ---- acquire_map_read ----
+    { name := "cl.map.mapped", guard := fun rt => isOp rt (.map s) && monMapped rt s, upd := fun rt => popOp rt,
+      out := fun _ => [s!"API map {s} -> err"] },
+    { name := "cl.map", guard := fun rt => isOp rt (.map s) && !monMapped rt s, upd := fun rt => setPc (popOp rt) (.mapLock s) },
+    { name := "cl.map.body.moved", guard := fun rt => atPc rt (.mapLock s) && sinkLockFree (getS rt s) && mapMoved rt s,
+      upd := fun rt => { (modS rt s fun st => { st with sinkCh := (mapRead rt s).1, monReg := true }) with
+                          client := { rt.client with pc := .mapNotify s, monLen := rt.client.monLen.set s (outLen (mapRead rt s).2),
+                                                     pendingSay := mapLine rt s } } },
+    { name := "cl.map.body", guard := fun rt => atPc rt (.mapLock s) && sinkLockFree (getS rt s) && !mapMoved rt s,
+      upd := fun rt => { (modS rt s fun st => { st with sinkCh := (mapRead rt s).1, monReg := true }) with
+                          client := { rt.client with pc := .afterMap s, monLen := rt.client.monLen.set s (outLen (mapRead rt s).2) } },
+      out := fun rt => [mapLine rt s] },
+    { name := "cl.map.notify", guard := fun rt => atPc rt (.mapNotify s), upd := fun rt => setPc (modS rt s notifySink) (.afterMap s),
+      out := fun rt => [rt.client.pendingSay] },
+    -- after the map: an ordinary call returns; `monwait` unmaps everything (if anything) and sleeps
+    { name := "cl.map.ret", guard := fun rt => atPc rt (.afterMap s) && !rt.client.inMonwait, upd := fun rt => setPc rt .next },
+    { name := "cl.monwait.unmap", guard := fun rt => atPc rt (.afterMap s) && rt.client.inMonwait && decide (rt.client.monLen.getD s 0 > 0),
+      upd := fun rt => setPc rt (.unmapLock s (rt.client.monLen.getD s 0)) },
+    { name := "cl.monwait.empty", guard := fun rt => atPc rt (.afterMap s) && rt.client.inMonwait && decide (rt.client.monLen.getD s 0 = 0),
+      upd := fun rt => setPc rt (.sleeping 1), out := fun _ => [s!"API unmap {s} 0 -> ok"] },
+    -- ---- monwait: while (state == Running) { map; unmap all; sleep } ----
+    { name := "cl.monwait.go", guard := fun rt => isOp rt (.monwait s) && (getState rt).state = .running,
+      upd := fun rt => { (getState rt) with client := { rt.client with pc := .mapLock s, inMonwait := true } } },
+    { name := "cl.monwait.end", guard := fun rt => isOp rt (.monwait s) && (getState rt).state ≠ .running,
+      upd := fun rt => { (popOp (getState rt)) with client := { (popOp (getState rt)).client with inMonwait := false } },
+      out := fun rt => [s!"API monwait {s} -> {(getState rt).state.name}"] }
+  ]) ++
+  [ -- ---- acquire_unmap_read (one action per stream and argument form is generated by `unmapActs`) ----
+    { name := "cl.unmap.notmapped",
+      guard := fun rt => rt.client.pc = .next && (match headOp rt with | some (.unmap s _) => !monMapped rt s | _ => false),
+      upd := fun rt => match headOp rt with
+        | some (.unmap s _) => { (popOp rt) with client := { (popOp rt).client with monLen := rt.client.monLen.set s 0 } }
+        | _ => rt,
+      out := fun rt => match headOp rt with
+        | some (.unmap s nf) => [s!"API unmap {s} {unmapCount rt s nf} -> ok"]
+        | _ => [] },
+    { name := "cl.unmap",
+      guard := fun rt => rt.client.pc = .next && (match headOp rt with | some (.unmap s _) => monMapped rt s | _ => false),
+      upd := fun rt => match headOp rt with
+        | some (.unmap s nf) => setPc (popOp rt) (.unmapLock s (unmapCount rt s nf))
+        | _ => rt },
+    { name := "cl.sleep0", guard := fun rt => rt.client.pc = .next && (match headOp rt with | some (.sleep n) => n = 0 | _ => false),
+      upd := fun rt => popOp rt },
+    { name := "cl.sleep", guard := fun rt => rt.client.pc = .next && (match headOp rt with | some (.sleep n) => n > 0 | _ => false),
+      upd := fun rt => match headOp rt with | some (.sleep n) => setPc (popOp rt) (.sleeping n) | _ => rt },
+    { name := "cl.sleeping.more", guard := fun rt => (match rt.client.pc with | .sleeping n => n > 1 | _ => false),
+      upd := fun rt => match rt.client.pc with | .sleeping n => setPc rt (.sleeping (n - 1)) | _ => rt },
+    { name := "cl.sleeping.last", guard := fun rt => (match rt.client.pc with | .sleeping n => n ≤ 1 | _ => false),
+      upd := fun rt => setPc rt .next },
+    { name := "cl.unmap.body",
+      guard := fun rt => (match rt.client.pc with | .unmapLock s _ => sinkLockFree (getS rt s) | _ => false),
+      upd := fun rt => match rt.client.pc with
+        | .unmapLock s k => { (modS rt s fun st => { st with sinkCh := (chanOp st.sinkCh (.runmap 1 k)).1 }) with
+                              client := { rt.client with pc := .unmapNotify s, monLen := rt.client.monLen.set s 0,
+                                                         pendingSay := s!"API unmap {s} {k} -> ok" } }
+        | _ => rt },
+    { name := "cl.configure",
+      guard := fun rt => rt.client.pc = .next && (match headOp rt with | some (.configure _ _) => true | _ => false),
+      upd := fun rt => match headOp rt with
+        | some (.configure a b) => { (popOp rt) with client := { (popOp rt).client with pc := .cfgAt 0, cfgN := [a, b] } }
+        | _ => rt }
+  ] ++
+  forS (fun s => [
+    { name := "cl.unmap.notify", guard := fun rt => atPc rt (.unmapNotify s), upd := fun rt => setPc (modS rt s notifySink) (.afterUnmap s),
+      out := fun rt => [rt.client.pendingSay] },
+    { name := "cl.unmap.ret", guard := fun rt => atPc rt (.afterUnmap s) && !rt.client.inMonwait, upd := fun rt => setPc rt .next },
+    { name := "cl.unmap.monwait", guard := fun rt => atPc rt (.afterUnmap s) && rt.client.inMonwait, upd := fun rt => setPc rt (.sleeping 1) },
+    -- ---- acquire_configure (same devices), stream by stream ----
+    { name := "cl.cfg.at", guard := fun rt => atPc rt (.cfgAt s) && (nextValid rt s).isSome, upd := fun rt => setPc rt (.cfgCamSet (nv rt s)) },
+    { name := "cl.cfg.end", guard := fun rt => atPc rt (.cfgAt s) && (nextValid rt s).isNone,
+      upd := fun rt => setPc { rt with state := if rt.state.code < 2 then .armed else rt.state } .next,
+      out := fun rt => [s!"API configure -> ok valid={validMask rt} state={(getState { rt with state := if rt.state.code < 2 then .armed else rt.state }).state.name}"] },
+    { name := "cl.cfg.camset", guard := fun rt => atPc rt (.cfgCamSet s),
+      upd := fun rt => setPc (modS rt s fun st => { st with cam := { st.cam with state := if st.cam.state = .running then .running else .armed } }) (.cfgStoSet s),
+      out := fun rt => [s!"DRV {camDev s} set {(getS rt s).setText} -> ok"] },
+    { name := "cl.cfg.stoset", guard := fun rt => atPc rt (.cfgStoSet s),
+      upd := fun rt => setPc (modS rt s fun st => { st with sto := { st.sto with state := .armed } }) (.cfgGetShape s),
+      out := fun _ => [s!"DRV {stoDev s} set -> armed"] },
+    { name := "cl.cfg.shape", guard := fun rt => atPc rt (.cfgGetShape s),
+      upd := fun rt => setPc (modS rt s fun st => { st with maxFrames := rt.client.cfgN.getD s st.maxFrames }) (.cfgAt (s + 1)) },
+    -- ---- acquire_start, stream by stream ----
+    { name := "cl.start.at", guard := fun rt => atPc rt (.startAt s) && (nextValid rt s).isSome, upd := fun rt => setPc rt (.stoStart (nv rt s)) },
+    { name := "cl.start.end", guard := fun rt => atPc rt (.startAt s) && (nextValid rt s).isNone,
+      upd := fun rt => setPc { rt with state := .running } .next, out := fun _ => ["API start -> ok"] },
+    { name := "cl.start.sto", guard := fun rt => atPc rt (.stoStart s),
+      upd := fun rt => setPc (modS rt s fun st => { st with sto := { st.sto with state := .running, run := st.sto.run + 1, nappend := 0, failed := false, log := [] } })
+                             (.accLock s true 0),
+      out := fun rt => [s!"DRV {stoDev s} start run={(getS rt s).sto.run + 1} -> running"] },
+    { name := "cl.start.snk", guard := fun rt => atPc rt (.createSnk s),
+      upd := fun rt => { (modS rt s fun st => { st with tidSnk := rt.nthreads, snk := {}, fltStopping := false, fltRunning := true }) with
+                          nthreads := rt.nthreads + 1, client := { rt.client with pc := .createFlt s } } },
+    { name := "cl.start.flt", guard := fun rt => atPc rt (.createFlt s),
+      upd := fun rt => { (modS rt s fun st => { st with tidFlt := rt.nthreads, flt := {} }) with
+                          nthreads := rt.nthreads + 1, client := { rt.client with pc := .srcCheck s } } },
+    -- video_source_start: the camera must be Armed
+    { name := "cl.start.srccheck.ok", guard := fun rt => atPc rt (.srcCheck s) && (getS rt s).cam.state = .armed, upd := fun rt => setPc rt (.camStart s) },
+    { name := "cl.start.srccheck.err", guard := fun rt => atPc rt (.srcCheck s) && (getS rt s).cam.state ≠ .armed,
+      upd := fun rt => { rt with client := { rt.client with pc := .startErr 0, startFailed := true, aborting := false } } },
+    { name := "cl.start.cam", guard := fun rt => atPc rt (.camStart s),
+      upd := fun rt => setPc (modS rt s fun st => { st with cam := { st.cam with state := .running, run := st.cam.run + 1, frame := 0, ncalls := 0, drvStarts := st.cam.drvStarts + 1 }, srcStopping := false, srcRunning := true }) (.createSrc s),
+      out := fun rt => [s!"DRV {camDev s} start run={(getS rt s).cam.run + 1} -> ok"] },
+    { name := "cl.start.src", guard := fun rt => atPc rt (.createSrc s),
+      upd := fun rt => { (modS rt s fun st => { st with tidSrc := rt.nthreads, src := {} }) with
+                          nthreads := rt.nthreads + 1, client := { rt.client with pc := .startAt (s + 1) } } },
+    -- acquire_start's error path: signal the workers of every valid stream, stop its camera, then acquire_stop
+    { name := "cl.starterr.at.running", guard := fun rt => atPc rt (.startErr s) && (nextValid rt s).isSome && (getS rt (nv rt s)).cam.state = .running,
+      upd := fun rt => setPc (modS rt (nv rt s) fun st => { st with srcStopping := true, fltStopping := true }) (.errCamStop (nv rt s)) },
+    { name := "cl.starterr.at.idle", guard := fun rt => atPc rt (.startErr s) && (nextValid rt s).isSome && (getS rt (nv rt s)).cam.state ≠ .running,
+      upd := fun rt => setPc (modS rt (nv rt s) fun st => { st with srcStopping := true, fltStopping := true }) (.startErr (nv rt s + 1)) },
+    { name := "cl.starterr.end", guard := fun rt => atPc rt (.startErr s) && (nextValid rt s).isNone, upd := fun rt => setPc rt (.stopAt 0) },
+    { name := "cl.starterr.camstop", guard := fun rt => atPc rt (.errCamStop s),
+      upd := fun rt => setPc (modS rt s fun st => { st with cam := { st.cam with state := .armed, drvStops := st.cam.drvStops + 1 } }) (.startErr (s + 1)),
+      out := fun _ => [s!"DRV {camDev s} stop -> ok"] },
+    -- ---- acquire_abort: per valid stream: source.is_stopping = 1; refuse writes; trigger; then acquire_stop ----
+    { name := "cl.abort.at", guard := fun rt => atPc rt (.abortAt s) && (nextValid rt s).isSome,
+      upd := fun rt => setPc (modS rt (nv rt s) fun st => { st with srcStopping := true }) (.accLock (nv rt s) false 1) },
+    { name := "cl.abort.end", guard := fun rt => atPc rt (.abortAt s) && (nextValid rt s).isNone, upd := fun rt => setPc rt (.stopAt 0) },
+    -- ---- acquire_stop, stream by stream ----
+    { name := "cl.stop.at", guard := fun rt => atPc rt (.stopAt s) && (nextValid rt s).isSome, upd := fun rt => setPc rt (.joinSrc (nv rt s)) },
+    { name := "cl.stop.end.err", guard := fun rt => atPc rt (.stopAt s) && (nextValid rt s).isNone && rt.client.startFailed,
+      upd := fun rt => { rt with state := .awaiting, client := { rt.client with pc := .next, startFailed := false } },
+      out := fun _ => ["API start -> err"] },
+    { name := "cl.stop.end", guard := fun rt => atPc rt (.stopAt s) && (nextValid rt s).isNone && !rt.client.startFailed,
+      upd := fun rt => { rt with state := .armed, client := { rt.client with pc := .next, aborting := false } },
+      out := fun rt => [if rt.client.aborting then "API abort -> ok" else "API stop -> ok"] },
+    { name := "cl.join.src", guard := fun rt => atPc rt (.joinSrc s) && (getS rt s).src.pc = .done, upd := fun rt => setPc rt (.joinFlt s) },
+    { name := "cl.join.flt", guard := fun rt => atPc rt (.joinFlt s) && (getS rt s).flt.pc = .done, upd := fun rt => setPc rt (.joinSnk s) },
+    { name := "cl.join.snk", guard := fun rt => atPc rt (.joinSnk s) && (getS rt s).snk.pc = .done, upd := fun rt => setPc rt (.accLock s true 2) },
+    -- channel_accept_writes(sink.in, v) and what follows it
+    { name := "cl.acc.t0", guard := fun rt => atPc rt (.accLock s true 0) && sinkLockFree (getS rt s),
+      upd := fun rt => setPc (modS rt s fun st => { st with sinkCh := (chanOp st.sinkCh (.accept true)).1 }) (.accNotify s 0) },
+    { name := "cl.acc.f1", guard := fun rt => atPc rt (.accLock s false 1) && sinkLockFree (getS rt s),
+      upd := fun rt => setPc (modS rt s fun st => { st with sinkCh := (chanOp st.sinkCh (.accept false)).1 }) (.accNotify s 1) },
+    { name := "cl.acc.t2", guard := fun rt => atPc rt (.accLock s true 2) && sinkLockFree (getS rt s),
+      upd := fun rt => setPc (modS rt s fun st => { st with sinkCh := (chanOp st.sinkCh (.accept true)).1 }) (.accNotify s 2) },
+    { name := "cl.acc.notify.start", guard := fun rt => atPc rt (.accNotify s 0),
+      upd := fun rt => setPc (modS rt s fun st => { (notifySink st) with snkStopping := false, snkRunning := true }) (.createSnk s) },
+    { name := "cl.acc.notify.abort", guard := fun rt => atPc rt (.accNotify s 1),
+      upd := fun rt => setPc (modS rt s notifySink) (.abortAt (s + 1)),
+      out := fun rt => if (getS rt s).cam.state = .running then [s!"DRV {camDev s} trigger -> ok"] else [] },
+    { name := "cl.acc.notify.stop", guard := fun rt => atPc rt (.accNotify s 2), upd := fun rt => setPc (modS rt s notifySink) (.flushAt s 2) }
+  ]) ++
+  -- flush_reader for the filter's (2), the sink's (0) and the monitor's (1) reader of stream s
+  forS (fun s => ([2, 0, 1] : List Nat).flatMap fun r => [
+    -- the monitor is flushed only if registered; a region the client still has mapped is released first
+    { name := "cl.flush.skip", guard := fun rt => atPc rt (.flushAt s r) && r = 1 && !(getS rt s).monReg, upd := fun rt => setPc rt (.flushed s r) },
+    { name := "cl.flush.pre", guard := fun rt => atPc rt (.flushAt s r) && r = 1 && monMapped rt s, upd := fun rt => setPc rt (.flushUnmapLock s r true) },
+    { name := "cl.flush.go", guard := fun rt => atPc rt (.flushAt s r) && !(r = 1 && !(getS rt s).monReg) && !(r = 1 && monMapped rt s),
+      upd := fun rt => setPc rt (.flushRmapLock s r) },
+    { name := "cl.flush.read.moved", guard := fun rt => atPc rt (.flushRmapLock s r) && lockOk rt s r && moved (readerChan (getS rt s) r) (flushRead rt s r).1,
+      upd := fun rt => { (modS rt s fun st => setReaderChan st r (flushRead rt s r).1) with
+                          client := { rt.client with pc := .flushRmapNotify s r, flushLen := outLen (flushRead rt s r).2 } } },
+    { name := "cl.flush.read", guard := fun rt => atPc rt (.flushRmapLock s r) && lockOk rt s r && !moved (readerChan (getS rt s) r) (flushRead rt s r).1,
+      upd := fun rt => { (modS rt s fun st => setReaderChan st r (flushRead rt s r).1) with
+                          client := { rt.client with pc := .flushAfterRead s r, flushLen := outLen (flushRead rt s r).2 } } },
+    { name := "cl.flush.read.notify", guard := fun rt => atPc rt (.flushRmapNotify s r), upd := fun rt => setPc (notifyIf rt s r) (.flushAfterRead s r) },
+    { name := "cl.flush.more", guard := fun rt => atPc rt (.flushAfterRead s r) && decide (rt.client.flushLen > 0), upd := fun rt => setPc rt (.flushUnmapLock s r false) },
+    { name := "cl.flush.empty", guard := fun rt => atPc rt (.flushAfterRead s r) && decide (rt.client.flushLen = 0), upd := fun rt => setPc rt (.flushed s r) },
+    { name := "cl.flush.unmap", guard := fun rt => atPc rt (.flushUnmapLock s r false) && lockOk rt s r,
+      upd := fun rt => setPc (modS rt s fun st => setReaderChan st r (chanOp (readerChan st r) (.runmap (readerIdx r) rt.client.flushLen)).1) (.flushUnmapNotify s r false) },
+    { name := "cl.flush.preunmap", guard := fun rt => atPc rt (.flushUnmapLock s r true) && lockOk rt s r,
+      upd := fun rt => setPc (modS rt s fun st => setReaderChan st r (chanOp (readerChan st r) (.runmap (readerIdx r) 0)).1) (.flushUnmapNotify s r true) },
+    { name := "cl.flush.unmap.notify", guard := fun rt => atPc rt (.flushUnmapNotify s r false) || atPc rt (.flushUnmapNotify s r true),
+      upd := fun rt => setPc (notifyIf rt s r) (.flushRmapLock s r) },
+    -- next reader (2 → 0 → 1), then the next stream
+    { name := "cl.flushed", guard := fun rt => atPc rt (.flushed s r),
+      upd := fun rt => setPc rt (if r = 2 then .flushAt s 0 else if r = 0 then .flushAt s 1 else .stopAt (s + 1)) }
+  ])
 
-/-- the client's step from its current parking point -/
-def clientStep (rt : RT) : Option RT :=
-  let cl := rt.client
-  match cl.pc with
-  | .idle => some (clientNext rt)        -- only at the very first step (thread start)
-  | .done => none
-  | .sleeping n => if n ≤ 1 then some (clientNext rt) else some { rt with client := { cl with pc := .sleeping (n - 1) } }
-  -- ---- acquire_start ----
-  | .stoStart s =>
-    let st := getS rt s
-    let run := st.sto.run + 1
-    let st := { st with sto := { st.sto with state := .running, run := run, nappend := 0, failed := false, log := [] } }
-    some (say { (setS rt s st) with client := { cl with pc := .accLock s true 0 } } s!"DRV {stoDev s} start run={run} -> running")
-  | .accLock s v next =>
-    let st := getS rt s
-    let (c', _) := chanOp st.sinkCh (.accept v)
-    some { (setS rt s { st with sinkCh := c' }) with client := { cl with pc := .accNotify s next } }
-  | .accNotify s next =>
-    let rt := setS rt s (notifySink (getS rt s))
-    let st := getS rt s
-    if next = 0 then
-      -- video_sink_start: flags, create the sink thread
-      some { (setS rt s { st with snkStopping := false, snkRunning := true }) with client := { cl with pc := .createSnk s } }
-    else if next = 1 then
-      -- acquire_abort: camera_execute_trigger (no yield with the trigger off), next stream or acquire_stop
-      let rt := if st.cam.state = .running then say rt s!"DRV {camDev s} trigger -> ok" else rt
-      match nextValid rt (s + 1) with
-      | some s' =>
-        let st' := getS rt s'
-        some { (setS rt s' { st' with srcStopping := true }) with client := { cl with pc := .accLock s' false 1 } }
-      | none =>
-        match nextValid rt 0 with
-        | some s0 => some { rt with client := { cl with pc := .joinSrc s0 } }
-        | none => some rt
-    else
-      -- acquire_stop after the joins: flush the readers
-      some { rt with client := { cl with pc := .flushRmapLock s 2 } }
-  | .createSnk s =>
-    let st := getS rt s
-    let st := { st with tidSnk := rt.nthreads, snk := {}, fltStopping := false, fltRunning := true }
-    some { (setS rt s st) with nthreads := rt.nthreads + 1, client := { cl with pc := .createFlt s } }
-  | .createFlt s =>
-    let st := getS rt s
-    let st := { st with tidFlt := rt.nthreads, flt := {} }
-    let rt := { (setS rt s st) with nthreads := rt.nthreads + 1 }
-    -- video_source_start: the camera must be Armed; camera_start parks at the mock's entry
-    if st.cam.state = .armed then some { rt with client := { cl with pc := .camStart s } }
-    else some (startError rt)
-  | .errCamStop s =>
-    let st := getS rt s
-    let st := { st with cam := { st.cam with state := .armed, drvStops := st.cam.drvStops + 1 } }
-    some (startErrorFrom (say (setS rt s st) s!"DRV {camDev s} stop -> ok") (s + 1))
-  -- ---- acquire_configure (same devices) ----
-  | .cfgCamSet s =>
-    let st := getS rt s
-    let st := { st with cam := { st.cam with state := if st.cam.state = .running then .running else .armed } }
-    some (say { (setS rt s st) with client := { cl with pc := .cfgStoSet s } } s!"DRV {camDev s} set {st.setText} -> ok")
-  | .cfgStoSet s =>
-    let st := getS rt s
-    let st := { st with sto := { st.sto with state := .armed } }
-    some (say { (setS rt s st) with client := { cl with pc := .cfgGetShape s } } s!"DRV {stoDev s} set -> armed")
-  | .cfgGetShape s =>
-    let st := getS rt s
-    let rt := setS rt s { st with maxFrames := cl.cfgN.getD s st.maxFrames }
-    match nextValid rt (s + 1) with
-    | some s' => some { rt with client := { cl with pc := .cfgCamSet s' } }
-    | none =>
-      let rt := { rt with state := if rt.state.code < 2 then .armed else rt.state }
-      let mask := (if (getS rt 0).valid then 1 else 0) + (if (getS rt 1).valid then 2 else 0)
-      some (clientNext (say rt s!"API configure -> ok valid={mask} state={(getState rt).state.name}"))
-  | .camStart s =>
-    let st := getS rt s
-    let run := st.cam.run + 1
-    let st := { st with cam := { st.cam with state := .running, run := run, frame := 0, ncalls := 0 },
-                        srcStopping := false, srcRunning := true }
-    some (say { (setS rt s st) with client := { cl with pc := .createSrc s } } s!"DRV {camDev s} start run={run} -> ok")
-  | .createSrc s =>
-    let st := getS rt s
-    let st := { st with tidSrc := rt.nthreads, src := {} }
-    let rt := { (setS rt s st) with nthreads := rt.nthreads + 1 }
-    match nextValid rt (s + 1) with
-    | some s' => some { rt with client := { cl with pc := .stoStart s' } }
-    | none => some (clientNext (say { rt with state := .running } "API start -> ok"))
-  -- ---- acquire_stop ----
-  | .joinSrc s => if (getS rt s).src.pc = .done then some { rt with client := { cl with pc := .joinFlt s } } else none
-  | .joinFlt s => if (getS rt s).flt.pc = .done then some { rt with client := { cl with pc := .joinSnk s } } else none
-  | .joinSnk s => if (getS rt s).snk.pc = .done then some { rt with client := { cl with pc := .accLock s true 2 } } else none
-  | .flushRmapLock s r =>
-    let st := getS rt s
-    let before := readerChan st r
-    let (c', o) := chanOp before (.rmap (readerIdx r))
-    let len := match o with | .slice _ len _ => len | _ => 0
-    let rt := { (setS rt s (setReaderChan st r c')) with client := { cl with flushLen := len } }
-    if moved before c' then some { rt with client := { rt.client with pc := .flushRmapNotify s r } }
-    else if len > 0 then some { rt with client := { rt.client with pc := .flushUnmapLock s r false } }
-    else some (afterFlush rt s r)
-  | .flushRmapNotify s r =>
-    let rt := if r = 2 then rt else setS rt s (notifySink (getS rt s))
-    if cl.flushLen > 0 then some { rt with client := { cl with pc := .flushUnmapLock s r false } }
-    else some (afterFlush rt s r)
-  | .flushUnmapLock s r pre =>
-    let st := getS rt s
-    let (c', _) := chanOp (readerChan st r) (.runmap (readerIdx r) (if pre then 0 else cl.flushLen))
-    some { (setS rt s (setReaderChan st r c')) with client := { cl with pc := .flushUnmapNotify s r pre } }
-  | .flushUnmapNotify s r _ =>
-    let rt := if r = 2 then rt else setS rt s (notifySink (getS rt s))
-    some { rt with client := { cl with pc := .flushRmapLock s r } }
-  -- ---- acquire_map_read / acquire_unmap_read ----
-  | .mapLock s =>
-    let st := getS rt s
-    let before := st.sinkCh
-    let (c', o) := if st.monReg then chanOp st.sinkCh (.rmap 1) else chanOp st.sinkCh .join
-    let (len, status) := match o with | .slice _ len stt => (len, stt) | _ => (0, 1)
-    let idx := if st.monReg then before.idx.getD 1 0 else before.total - before.c.head
-    let ids := (framesIn st.sinkFrames idx len).map (·.id)
-    let rt := setS rt s { st with sinkCh := c', monReg := true }
-    let rt := { rt with client := { cl with monLen := cl.monLen.set s len } }
-    let line := if status = 0 then s!"API map {s} -> ok bytes={len} frames={",".intercalate (ids.map toString)}" else s!"API map {s} -> err"
-    -- a joining reader never moves a bookmark; a registered one may (then the call returns after its notify step)
-    if st.monReg && moved before c' then some { rt with client := { rt.client with pc := .mapNotify s, pendingSay := line } }
-    else
-      let rt := say rt line
-      if cl.inMonwait then
-        (if len > 0 then some { rt with client := { rt.client with pc := .unmapLock s len } }
-         else some { (say rt s!"API unmap {s} 0 -> ok") with client := { rt.client with pc := .sleeping 1 } })
-      else some (clientNext rt)
-  | .mapNotify s =>
-    let rt := say (setS rt s (notifySink (getS rt s))) cl.pendingSay
-    if cl.inMonwait then
-      let len := cl.monLen.getD s 0
-      (if len > 0 then some { rt with client := { rt.client with pc := .unmapLock s len } }
-       else some { (say rt s!"API unmap {s} 0 -> ok") with client := { rt.client with pc := .sleeping 1 } })
-    else some (clientNext rt)
-  | .unmapLock s k =>
-    let st := getS rt s
-    let (c', _) := chanOp st.sinkCh (.runmap 1 k)
-    let rt := setS rt s { st with sinkCh := c' }
-    some { rt with client := { cl with pc := .unmapNotify s, monLen := cl.monLen.set s 0, pendingSay := s!"API unmap {s} {k} -> ok" } }
-  | .unmapNotify s =>
-    let rt := say (setS rt s (notifySink (getS rt s))) cl.pendingSay
-    if cl.inMonwait then some { rt with client := { cl with pc := .sleeping 1 } } else some (clientNext rt)
+def clientParked (rt : RT) : Bool :=
+  match rt.client.pc with
+  | .next | .startAt _ | .srcCheck _ | .startErr _ | .abortAt _ | .stopAt _ | .flushAt .. | .flushAfterRead .. | .flushed ..
+  | .cfgAt _ | .afterMap _ | .afterUnmap _ => false
+  | _ => true
+
+def clientStep (rt : RT) : Option (RT × List String) :=
+  stepThread clientActs clientParked (rt.client.prog.length + 12) rt
+
+/-- the client is already running when the window opens: run it to its first parking point -/
+def clientBoot (rt : RT) : RT × List String :=
+  settleT clientActs clientParked (rt.client.prog.length + 12) (rt, [])
 
 /-! ## the whole system -/
 
@@ -282,42 +313,13 @@ def whoIs (rt : RT) (t : Nat) : Option (Nat × Role) :=
     if st.tidSnk = t then some (s, Role.sink) else if st.tidFlt = t then some (s, Role.filter)
     else if st.tidSrc = t then some (s, Role.source) else none
 
-/-- is some thread parked at the entry of `condition_variable_wait` of this stream's `sink.in` (so holds its lock)? -/
-def sinkLockHeld (st : Stream) : Bool := st.src.pc = .wmapWait
-
-/-- does the step of this thread start by taking the lock of stream `s`'s `sink.in`? -/
-def needsSinkLock (rt : RT) (t : Nat) : Option Nat :=
-  match whoIs rt t with
-  | some (s, .source) => match (getS rt s).src.pc with
-    | .wmapLock | .wmapWoken | .abortLock | .commitLock => some s
-    | _ => none
-  | some (s, .sink) => match (getS rt s).snk.pc with
-    | .rmapLock | .runmapLock | .errAccLock | .errUnmapLock => some s
-    | _ => none
-  | some (_, .filter) => none
-  | none => match rt.client.pc with
-    | .accLock s _ _ => some s
-    | .flushRmapLock s r => if r = 2 then none else some s
-    | .flushUnmapLock s r _ => if r = 2 then none else some s
-    | .mapLock s => some s
-    | .unmapLock s _ => some s
-    | _ => none
-
 /-- one scheduler step of thread `t`; `none` = not enabled / no such thread -/
-def rtStep (rt : RT) (t : Nat) : Option RT :=
-  let rt := { rt with out := [] }
-  match needsSinkLock rt t with
-  | some s => if sinkLockHeld (getS rt s) then none else go rt t
-  | none => go rt t
-where
-  go (rt : RT) (t : Nat) : Option RT :=
-    if t = 0 then clientStep rt else
-    match whoIs rt t with
-    | none => none
-    | some (s, .source) =>
-      (srcStep s (getS rt s)).map fun (st, o) => { (setS rt s st) with out := rt.out ++ o }
-    | some (s, .sink) =>
-      (snkStep s (getS rt s)).map fun (st, o) => { (setS rt s st) with out := rt.out ++ o }
-    | some (s, .filter) => (fltStep (getS rt s)).map fun st => setS rt s st
+def rtStep (rt : RT) (t : Nat) : Option (RT × List String) :=
+  if t = 0 then clientStep rt else
+  match whoIs rt t with
+  | none => none
+  | some (s, .source) => (srcStep s (getS rt s)).map fun (st, o) => (setS rt s st, o)
+  | some (s, .sink) => (snkStep s (getS rt s)).map fun (st, o) => (setS rt s st, o)
+  | some (s, .filter) => (fltStep (getS rt s)).map fun (st, o) => (setS rt s st, o)
 
 end AcqVerif.Runtime
